@@ -8,7 +8,7 @@ extract.REPO = repo
 gen = os.path.join(driver.ROOT, 'gen', 'survey.rs')
 rep = extract.build(gen)
 gl = open(gen).read().split('\n')
-mods = ['views::' + m for m in rep['modules']] + ['lem', 'alg'] + ['props::' + os.path.basename(p)[:-3] for p in sorted(os.listdir(os.path.join(driver.VF, 'props'))) if p.endswith('.rs')]
+mods = ['views::' + m for m in rep['modules']] + ['lem', 'alg', 'alg2'] + ['props::' + os.path.basename(p)[:-3] for p in sorted(os.listdir(os.path.join(driver.VF, 'props'))) if p.endswith('.rs')]
 res = driver.run_verus(gen, mods, rlimit=int(os.environ.get('RLIMIT', '200')), timeout=1800)
 errs = driver.parse_stderr(res['stderr'])
 print('verus:', res['json'] and res['json']['verification-results'], 'wall %.1fs' % res['wall'])
